@@ -174,6 +174,29 @@ GROUPS["bvf_arith"] = dict(name="bvf_arith",
 GROUPS["bvd_bitops"] = G("bvd_bitops", BVD_PRELUDE, BVD_BASE + stub(BVD_CORE) + verify(["bvd.binop_bvd"]))
 GROUPS["bvd_bitops"]["features"] = "#![feature(allocator_api)]"
 
+def cmp_prelude(ctx):
+    """self: Bvf<I,_>, other: Bvf<J,_>, both read in chunks of J"""
+    p = WORD_PRELUDE + ["conv_std.rs"] + VALUE_PRELUDE + ["bvf.rs", "bvf_val.rs", "iarray.rs"]
+    diff = ctx["J"] != ctx["I"]
+    OJ = {"I": "{J}", "X": "{XJ}"}
+    if diff:
+        p += [("word.rs", OJ), ("value_word.rs", OJ), ("bvf.rs", OJ), ("bvf_val.rs", OJ)]
+    p += [("chunk.rs", {"Y": "{XJ}"})]
+    if diff:
+        p += [("chunk.rs", {"I": "{J}", "X": "{XJ}", "Y": "{XJ}"})]
+    return p + ["cmp.rs"]
+
+def cmp_items(ctx, units):
+    it = BVF_BASE + int_impl_j(ctx) + stub(BVF_CORE)
+    SY = {"Y": "{XJ}"}
+    it += slice_ia("stub", SY) + [("stub", "bvf.int_len", SY), ("stub", "bvf.get_int", SY)]
+    if ctx["J"] != ctx["I"]:
+        OJ = {"I": "{J}", "X": "{XJ}", "Y": "{XJ}"}
+        it += slice_ia("stub", OJ) + [("stub", "bvf.int_len", OJ), ("stub", "bvf.get_int", OJ)]
+    return it + verify(units)
+
+GROUPS["bvf_cmp"] = dict(name="bvf_cmp", prelude=cmp_prelude, items=lambda ctx: cmp_items(ctx, ["bvf.eq_bvf", "bvf.partial_cmp_bvf"]))
+
 # -------------------------------------------------------------------------------------------------
 # property -> jobs
 TYPES6 = ["u8", "u16", "u32", "u64", "u128", "usize"]
